@@ -69,7 +69,7 @@ func newShardedLimiter(n int) *shardedLimiter {
 	s := &shardedLimiter{quota: map[string]int32{}, cfg: map[string]schemaCfg{}}
 	for i := 0; i < n; i++ {
 		l := &leaderStub{shard: i, healthy: 1, svc: s}
-		l.srv = httptest.NewServer(http.HandlerFunc(l.serve))
+		l.srv = bed.NewServer(http.HandlerFunc(l.serve))
 		s.leaders = append(s.leaders, l)
 	}
 	return s
